@@ -11,6 +11,7 @@ import (
 	"fmt"
 	"os"
 	"path/filepath"
+	"time"
 
 	"github.com/samaritan-proxy/samaritan/logger"
 )
@@ -28,9 +29,17 @@ var (
 	fOut  = flag.String("out", ".", "output directory")
 	fTier = flag.String("tier", "quick", "quick|thorough")
 	fIn   = flag.String("in", "", "input file (replay)")
+	fDeadline = flag.Int("deadline", 0, "stop generating new cases after this many seconds (0: never)")
 )
 
 func register(name string, f func()) { modes[name] = f }
+
+var startedAt = time.Now()
+
+// expired: the time budget for generating cases is used up (a broken tree can make every case slow)
+func expired() bool {
+	return *fDeadline > 0 && time.Since(startedAt) > time.Duration(*fDeadline)*time.Second
+}
 
 func die(format string, a ...interface{}) {
 	fmt.Fprintf(os.Stderr, "harness: "+format+"\n", a...)
